@@ -1,6 +1,7 @@
 package main
 
 import (
+	"sort"
 	"fmt"
 	"go/ast"
 	"go/token"
@@ -169,7 +170,7 @@ func (w *World) lowerFunc(pkg *Pkg, key string, fd *ast.FuncDecl, fc *FuncContra
 	fn := pkg.Info.Defs[fd.Name].(*types.Func)
 	sig := fn.Type().(*types.Signature)
 	proc := &Proc{Name: key, Sorts: map[string]Sort{}}
-	e := &Env{w: w, pkg: pkg, fnPkg: pkg.Path, fd: fd, fn: fn, fc: fc, proc: proc, short: shortKey(key),
+	e := &Env{w: w, pkg: pkg, fnPkg: pkg.Path, fd: fd, fn: fn, fc: fc, proc: proc, short: shortKey(key), key: key,
 		locals: map[types.Object]string{}, assigned: map[string]bool{}, callOrd: map[string]int{},
 		oldNeeded: map[string]Sort{}, anchors: map[string]int{}, usedCl: map[*Clause]bool{},
 		trusted: map[string]bool{}, specLocals: map[string]types.Object{}, panicOrd: map[string]int{},
@@ -299,6 +300,13 @@ func (w *World) lowerFunc(pkg *Pkg, key string, fd *ast.FuncDecl, fc *FuncContra
 	e.emit(Cmd{Kind: CAssert, T: False, Ob: &Obligation{Name: e.short + "#cover.entry", Func: e.short, Kind: "cover", Cover: true, Descr: "preconditions are satisfiable"}})
 
 	if fc != nil && !fc.Assumed {
+		e.frameAuto = func(mem bool, maps []string) *Term {
+			var ents []Value
+			for _, a := range actuals {
+				ents = append(ents, e.toEntry(a))
+			}
+			return e.frameTerm(fc, key, sig, ents, mem, maps)
+		}
 		e.ownAuto = func() []*Term {
 			var ents []Value
 			for _, a := range actuals {
@@ -380,8 +388,8 @@ func (w *World) lowerFunc(pkg *Pkg, key string, fd *ast.FuncDecl, fc *FuncContra
 			}
 		}
 		// memory frame
-		if fc != nil && e.assigned["Mem"] && !fc.Assumed && contractTagged(fc, "C13") {
-			e.memFrame(fc, key, sig, exitActuals)
+		if e.frameAuto != nil {
+			e.assertFrame(e.frameAuto(e.assigned["Mem"], heapMapsOf(e.assigned)), "exit", "only what the modifies clause allows (or freshly allocated memory) is written", fmt.Sprintf("%s:%d", fc.File, fc.Line))
 		}
 		// global writes
 		if fc != nil {
@@ -486,27 +494,124 @@ func (e *Env) exitCtx() *specCtx {
 	return &specCtx{e: e, names: names, bound: map[string]*Term{}, oldMap: e.entryOld}
 }
 
-// memFrame asserts that the function wrote only byte arrays it may write:
-// those reachable from its modifies roots (entry values) and fresh ones.
-func (e *Env) memFrame(fc *FuncContract, key string, sig *types.Signature, entryActuals []Value) {
+// frameTerm states that, relative to the function's entry, only what the modifies clause allows has been
+// written: byte arrays owned by the modifies roots (or freshly allocated), and fields of the by-value leaves
+// of the roots (and of the function's own by-value parameters), the listed ptr()/field() leaves, and objects
+// allocated during the call. This is exactly what callers assume when they havoc only the roots.
+func (e *Env) frameTerm(fc *FuncContract, key string, sig *types.Signature, ents []Value, mem bool, maps []string) *Term {
 	names := map[string]Value{}
 	for i, n := range fc.Params {
-		if i < len(entryActuals) && n != "_" {
-			names[n] = entryActuals[i]
+		if i < len(ents) && n != "_" {
+			names[n] = ents[i]
 		}
 	}
 	pctx := &specCtx{e: e, names: names, bound: map[string]*Term{}, oldMap: e.entryOld}
-	ms := e.modSpecOf(fc, key, sig, entryActuals, pctx)
-	r := Bound("r$", SInt)
-	conds := []*Term{Lt(r, e.nextRef().Subst(e.entryOld))}
-	for _, rf := range ms.refs {
-		conds = append(conds, Ne(r, rf.Subst(e.entryOld)))
+	saved := e.errors
+	ms := e.modSpecOf(fc, key, sig, ents, pctx)
+	e.errors = saved
+	var conj []*Term
+	oldNext := e.nextObj().Subst(e.entryOld)
+	inv := func(t *Term) *Term { return App("subinv", SInt, t) }
+	live := func(t *Term) *Term { return And(Gt(t, IntLit(0)), Lt(t, oldNext)) }
+	preObj := func(o *Term) *Term {
+		return Or(live(o), And(Lt(o, IntLit(0)), Or(live(inv(o)), And(Lt(inv(o), IntLit(0)), Or(live(inv(inv(o))), And(Lt(inv(inv(o)), IntLit(0)), live(inv(inv(inv(o))))))))))
 	}
-	oldMem := e.mem().Subst(e.entryOld)
-	e.assert(Forall([]*Term{r}, Implies(And(conds...), Eq(Select(e.mem(), r), Select(oldMem, r)))),
-		"frame", "mem", []string{"C13"}, "only byte arrays owned by the modifies roots (or freshly allocated) are written", fmt.Sprintf("%s:%d", fc.File, fc.Line))
+	if mem {
+		r := Bound("r$", SInt)
+		// pre-existing arrays: allocated or constant ones, and the inline arrays of pre-existing objects
+		conds := []*Term{Lt(r, e.nextRef().Subst(e.entryOld)), Or(Gt(r, IntLit(-1000)), preObj(App("arrinv", SInt, r)))}
+		for _, rf := range ms.refs {
+			conds = append(conds, Ne(r, rf.Subst(e.entryOld)))
+		}
+		oldMem := e.mem().Subst(e.entryOld)
+		conj = append(conj, Forall([]*Term{r}, Implies(And(conds...), Eq(Select(e.mem(), r), Select(oldMem, r)))))
+	}
+	exempt := map[string][]*Term{}
+	addLeaf := func(id *Term, lf leaf) {
+		if _, isArr := lf.Typ.Underlying().(*types.Array); isArr {
+			return
+		}
+		for _, c := range leafComps(lf.K, lf.ElemU) {
+			n := heapMap(lf.Owner, lf.Field) + c.Suf
+			exempt[n] = append(exempt[n], id.Subst(e.entryOld))
+		}
+	}
+	addRoot := func(r Value) {
+		t := r.Typ
+		if r.K == VPtr {
+			t = derefType(t)
+		}
+		walkLeaves(t, nil, func(steps []subStep, lf leaf) { addLeaf(subID(r.T, steps), lf) })
+	}
+	for _, r := range ms.roots {
+		addRoot(r)
+	}
+	for _, a := range ents {
+		if a.K == VStruct {
+			addRoot(a)
+		}
+	}
+	for _, pl := range ms.ptrs {
+		addLeaf(pl.id, pl.lf)
+	}
+	o := Bound("o$", SInt)
+	pre := preObj(o)
+	for _, n := range maps {
+		s, ok := e.proc.Sorts[n]
+		if !ok {
+			continue
+		}
+		cur := Var(n, s)
+		old := cur.Subst(e.entryOld)
+		conds := []*Term{pre}
+		for _, x := range exempt[n] {
+			conds = append(conds, Ne(o, x))
+		}
+		conj = append(conj, Forall([]*Term{o}, Implies(And(conds...), Eq(Select(cur, o), Select(old, o)))))
+	}
+	if len(conj) == 0 {
+		return nil
+	}
+	return And(conj...)
 }
 
+func (e *Env) frameFlag() *Term {
+	e.declare("$frameq", SBool)
+	return Var("$frameq", SBool)
+}
+
+// assertFrame emits a frame obligation; the frame invariants of loops are guarded by $frameq, which is
+// true only in the queries of frame obligations (so they cost the other queries nothing).
+func (e *Env) assertFrame(t *Term, detail string, descr, pos string) {
+	if t == nil {
+		return
+	}
+	name := e.short + "#frame." + detail + e.pathTag
+	ob := &Obligation{Name: name, Tags: []string{homeProp(e.key)}, Func: e.short, Kind: "frame", Descr: descr, Pos: pos, Frame: true}
+	if p := pkgOfKey(e.key); strings.HasSuffix(p, "/internal/buffer") || strings.HasSuffix(p, "/builder") {
+		ob.Tags = append(ob.Tags, "C13")
+	}
+	g := Implies(e.frameFlag(), t)
+	if t.Op == "and" && len(t.Args) > 1 {
+		var cs []*Term
+		for _, c := range t.Args {
+			cs = append(cs, Implies(e.frameFlag(), c))
+		}
+		g = And(cs...)
+	}
+	e.emit(Cmd{Kind: CAssert, T: g, Ob: ob})
+}
+
+func heapMapsOf(assigned map[string]bool) []string {
+	var hn []string
+	for n := range assigned {
+		if strings.HasPrefix(n, "H$") {
+			hn = append(hn, n)
+		}
+	}
+	sort.Strings(hn)
+	return hn
+}
 
 var depWords = []string{"dep(", "WF(", "WFP(", "LS(", "frag(", "depConst(", "inv("}
 
